@@ -10,8 +10,15 @@ the current branch alone or inside a box, on the side fork only, pending, new, r
 around any of those, repetitions) in every position, delivered before / after / while the blocks that package
 some of them are inserted; its graphs are replayed through the same real manager (real TxGuard, TxPool, chain;
 adapter synctx), seeded random sessions over the whole universe are recorded by the driver synctx-grid, and
-both are validated by the monitor TraceSyncTx.tla (the per-transaction rule)."""
-import copy, json, time, concurrent.futures
+both are validated by the monitor TraceSyncTx.tla (the per-transaction rule).
+Block messages with SEVERAL blocks (Sync.tla DeliverBatch: any sequence of 2-3 heights of the segment, repetitions included,
+overlapping what the node holds - held and unstable / stable / waiting in the cache - at any position, mixed with single
+deliveries and confirms) are replayed as one BlocksMsg each.  Every step also logs whether the node closed the scripted
+peer's session during it (peer_dropped; a fresh session is opened for the following steps): no well-formed message of
+these sessions - in particular no batch with transactions the body check refuses - may cost the sender its connection.
+Every wait of the adapter on the node is bounded; an expired wait is recorded as that step's observation (a trace line no
+monitor consumes), the node is abandoned and the next behaviour starts on a fresh one."""
+import copy, json, os, time, concurrent.futures
 import vlib
 
 LEVEL = "model_checking"
@@ -20,7 +27,8 @@ MANIFEST = dict(
     level="model_checking",
     text="TLC checks Converges / CacheSorted / CacheKeepsUntilParent / CacheOnlyWaiting / ConfirmsKept / TxOnce / ChainLinear / Forward on the "
          "sync model for a segment of 3-5 blocks, up to 3 confirm packets and one batch of 3 transactions in every delivery order with up to 2 duplicates, "
-         "including a confirm that arrives while the engine is busy inserting its block; "
+         "including a confirm that arrives while the engine is busy inserting its block, and (3-4 blocks) up to 2 block messages holding any "
+         "sequence of 2-3 blocks of the segment (repetitions included) that overlap what the node already holds; "
          "the transitions of those state graphs (all of the 4-block/1-duplicate and 5-block graphs in the thorough tier, seeded samples otherwise) are replayed through the real "
          "ProtocolManager (real blocks, signatures and transactions; real chain.BlockChain, TxPool, 500 ms queue timer) and the node state logged at "
          "each quiescence point is validated step by step by TLC against the monitor, the final current/stable blocks against an in-order run on a "
@@ -31,7 +39,8 @@ MANIFEST = dict(
          "by none, boxes around packaged / new / expired ones, expired / too-late / other-chain / under-priced ones; 2-3 main blocks + a side block "
          "in any order, a batch interleaved with a block insertion both ways); every transition of those graphs is replayed through the real "
          "ProtocolManager + TxGuard + TxPool + chain and seeded random sessions (batches of up to 5 of the 19 transactions) are recorded; the pool "
-         "content after every step is validated by TLC against the per-transaction rule (TraceSyncTx.tla).",
+         "content after every step is validated by TLC against the per-transaction rule (TraceSyncTx.tla); in every step of every trace the "
+         "node must not have closed the sender's session (PeerKept).",
     note="Hook-free: the manager's unexported caches are read with reflect/unsafe under their own locks. One message is handled to quiescence "
          "before the next is delivered (concurrent handling is C19's subject); one peer; the engine is abstracted in the design to "
          "'parent known => accepted, 2 of 3 distinct signers => stable' (C03 checks the engine itself).",
@@ -127,7 +136,8 @@ def negatives(ctx):
     for module, cfg, want in (("MCSync", "MCSync_negSorted.cfg", "CacheSorted"), ("MCSync", "MCSync_negConverges.cfg", "Converges"),
                               ("MCSync", "MCSync_negTx.cfg", "TxOnce"), ("MCSync", "MCSync_negRace.cfg", "ConfirmsKept"), ("MCSyncCache", "MCSyncCache_neg.cfg", "Refines"),
                               ("MCSyncTx", "MCSyncTx_negAny.cfg", "TxReachesPool"), ("MCSyncTx", "MCSyncTx_negAdd.cfg", "PoolClean"),
-                              ("MCSyncTx", "MCSyncTx_negStale.cfg", "TxReachesPool")):
+                              ("MCSyncTx", "MCSyncTx_negStale.cfg", "TxReachesPool"), ("MCSync", "MCSync_negBatch.cfg", "CacheKeepsUntilParent"),
+                              ("MCSyncTx", "MCSyncTx_negAbort.cfg", "TxReachesPool"), ("MCSyncTx", "MCSyncTx_negAbortPeer.cfg", "PeerKept")):
         r = ctx.tlc(module, cfg, timeout=600, expect_ok=False, workers=2)
         if r["inv"] != want:
             raise vlib.Broken("negative control %s: expected %s to be violated, got %s\n%s" % (cfg, want, r["inv"], r["out"][-1500:]))
@@ -149,13 +159,18 @@ def run(ctx):
             # are inserted) and of the smallest box graph, seeded samples of the others
             txs = ex.submit(transactions, sub(ctx, "tx"), [("coreq", 0, 8), ("boxq", 0, 2), ("boxes", 200, 4), ("wide", 250, 8)], 48, 16)
             five = ex.submit(manager, sub(ctx, "m2"), "five", "MCSync_five.cfg", 300, False, 16)
+            # messages with several blocks that overlap what the node holds (a seeded sample of the 3-block graph; all of it in the thorough tier)
+            batch = ex.submit(manager, sub(ctx, "m3"), "batch", "MCSync_batch.cfg", 800, False, 24)
             results.append(manager(sub(ctx, "m1"), "quick", "MCSync_quick.cfg", 1500, False, 48))
             results.append(five.result())
+            results.append(batch.result())
             results += txs.result()
         else:   # one manager replay at a time: 64 processes with a real node each
             results += transactions(sub(ctx, "tx"), [("wide", 0, 24), ("core", 0, 16), ("core3", 0, 16), ("boxes", 0, 16), ("side", 0, 16), ("pos", 0, 8), ("invalid", 0, 1), ("boxq", 0, 2)], 1600, 64, par=2)
             results.append(manager(sub(ctx, "m1"), "quick", "MCSync_quick.cfg", 0, True))
             results.append(manager(sub(ctx, "m2"), "five", "MCSync_five.cfg", 0))
+            results.append(manager(sub(ctx, "m5"), "batch", "MCSync_batch.cfg", 0))
+            results.append(manager(sub(ctx, "m6"), "batch4", "MCSync_batch4.cfg", 6000))
             results.append(manager(sub(ctx, "m4"), "three", "MCSync_three.cfg", 10000))
             results.append(manager(sub(ctx, "m3"), "thorough", "MCSync_thorough.cfg", 8000))
         results += [j.result() for j in side]
@@ -178,5 +193,8 @@ def run(ctx):
         "SyncTx: the side block is delivered after its main-branch sibling (it never becomes the current block: fork choice is C03's subject); a batch is not delivered while "
         "the queue timer has an insertable cached block to drain (that interleaving is covered by the explicit RaceAdd / RaceInsert actions with a directly inserted block); "
         "no confirms travel (the stable block stays at genesis)",
+        "multi-block messages: the design's DeliverBatch counts the still undelivered blocks of the message as delivered; the blocks are real, valid blocks of the segment "
+        "(a message with an invalid block is C03 / C15's subject), 3 blocks / 2 confirms / 2 such messages per session (4 blocks / 3 confirms / 1 message in the thorough tier)",
+        "a wait of the adapter that expires (%s s; 3 s once one has expired in the process) is an observation about the code under test, not a harness failure" % os.environ.get("VERIF_SYNC_WAIT", "30"),
         "after the named deviation Dev_CacheAddMiddle the final-convergence clause is waived for that behaviour (blocks were dropped by the known defect); every other step is still compared",
     ]
